@@ -60,7 +60,7 @@ func vhC16Face() *FontFace {
 
 func vhC16New[T any](p *T) *T { return new(T) }
 
-var vhC16Texts = []string{"ab cd", "a b c", "ab\ncd e", "abc", "ab  cd", "ab\r\ncd", "ab\u00adcd e", "a\u00adb\u00adc"}
+var vhC16Texts = []string{"ab cd", "a b c", "ab\ncd e", "abc", "ab  cd", "ab\r\ncd", "ab\u00adcd e", "a\u00adb\u00adc", "aα bβ"}
 
 // texts with two adjacent spaces: the first space stays inside the line box when the break is taken
 // at the second, so Right/Center are judged only on the others
@@ -93,7 +93,7 @@ func VH_C16_totext_justify_Q() {
 func vhC16ToText(s string, halign TextAlign, withIndent bool) {
 	vStub("!(github.com/tdewolff/canvas/text.Shaper).Shape", vhC16Shape)
 	vStub("!github.com/tdewolff/canvas/text.EmbeddingLevels", vhC16Levels)
-	vStub("!github.com/tdewolff/canvas/text.LookupScript", vhC16Script)
+	vStub("!github.com/tdewolff/canvas/text.LookupScript", vhC16Script2)
 	vStub("!(*github.com/tdewolff/font.SFNT).GlyphIndex", vhC16GlyphIndex)
 	vStub("!(*github.com/tdewolff/font.SFNT).GlyphAdvance", vhC16GlyphAdvance)
 	indent := 0.0
